@@ -718,10 +718,56 @@ def check_data_accounting(chk, rule='C09.I'):
     return True
 
 
+def check_include_accounting(chk, rule='C09.I'):
+    """the include branch of the statement loop evaluated (E6s) on every include scenario of C17 - among them the statement limit hit inside an included script and right after an
+    include: events and final statement count agree with the documented semantics -> True when all agree"""
+    from .. import stepsim
+    from .c17 import include_scenarios
+    mod = chk.repo.module('runtime')
+    func = mod.func('_execute_script_helper', rule)
+    it = stepsim.IncludeInterp(chk.repo, mod, rule)
+    n = 0
+    for r, desc, model, opts, fetch, scripts, warnings, limit in include_scenarios():
+        it.fetch, it.scripts, it.warnings = fetch, scripts, warnings
+        got = it.run_include(func, model, opts, limit)
+        want = stepsim.include_reference(model, opts, fetch, scripts, warnings, limit)
+        diff = stepsim.include_compare(got, want)
+        n += 1
+        if diff is not None:
+            if 'count' in diff.lower() or r == 'C17.G':
+                chk.bad(rule, mod, func.name, f'include scenario: {desc}', f'abstract execution of the include statement ({desc}): {diff}')
+            return False
+    chk.ok(rule, f'{n} include scenarios evaluated (E6s), incl. the statement limit reached inside an included script and right after an include: the statements of included scripts are '
+           f'counted on the run\'s counter on normal and on aborted exits', count=n)
+    return True
+
+
 def check_identity_with_sim(chk):
     data_ok = chk.guard('C09.I', check_data_accounting, chk)
+    inc_ok = chk.guard('C09.I', check_include_accounting, chk)
     before_u = len(chk.unrecognised)
+    before_f = len(chk.findings)
+    before_i = len(chk.instances)
     chk.guard('C09.I', check_identity, chk)
+    if inc_ok:
+        # the include branch was evaluated: what the shape read-back says about the write-back of the include's options copy is advisory
+        keep = []
+        for f in chk.findings[before_f:]:
+            if f.rule == 'C09.I' and f.file.endswith('runtime.py') and ('write-back' in f.construct):
+                chk.note(f'C09.I shape read-back not confirmed by the evaluation of the include branch, ignored: {f.what[:160]}')
+            else:
+                keep.append(f)
+        dropped = {id(f) for f in chk.findings[before_f:]} - {id(f) for f in keep}
+        chk.findings[before_f:] = keep
+        if dropped:
+            chk.instances[before_i:] = [i for i in chk.instances[before_i:] if not (i['verdict'] == 'VIOLATION' and 'write-back' in i['instance'])]
+        keep_u = []
+        for u in chk.unrecognised[before_u:]:
+            if u['rule'] == 'C09.I' and u['what'].startswith('runtime.') and 'include' in u['what']:
+                chk.note(f"C09.I shape read-back: {u['what']} - decided by the evaluation of the include branch")
+            else:
+                keep_u.append(u)
+        chk.unrecognised[before_u:] = keep_u
     if data_ok:
         # what the shape read-back could not recognise about the data.py helpers is decided by the evaluation above
         keep = []
